@@ -105,6 +105,8 @@ pub struct Material {
     pub n_client: [native_tls::TlsConnector; 2],
     pub n_server: [native_tls::TlsAcceptor; 2],
     pub key_alg: &'static str,
+    /// why a preferred key type was not used
+    pub key_note: String,
 }
 
 pub fn make_material() -> Result<Material, String> {
@@ -179,6 +181,7 @@ pub fn make_material() -> Result<Material, String> {
                 n_client: [nc[0].clone(), nc[1].clone()],
                 n_server: [ns[0].clone(), ns[1].clone()],
                 key_alg: alg_name,
+                key_note: String::new(),
             })
         };
         match build() {
@@ -208,7 +211,11 @@ pub fn make_material() -> Result<Material, String> {
                         }
                     }
                 }
-                if ok {
+                // The last candidate is used even if its smoke runs fail: then the layer itself is at
+                // fault and the exploration reports that as violations (not a machinery error).
+                if ok || alg.is_none() {
+                    let mut m = m;
+                    m.key_note = last_err.clone();
                     return Ok(m);
                 }
             }
